@@ -456,7 +456,7 @@ fn run_case(line: &str) -> String {
         }));
         if r.is_err() {
             // a panic inside the real code: keep what the earlier ops produced, report where and why
-            out.truncate(before_len);
+            let _ = before_len;
             out.push_str(&format!(" (panic \"{}\" \"{}\"))", qvh::last_panic(), last_message().replace('"', "'")));
             return out;
         }
